@@ -106,14 +106,17 @@ def value_semantics(ctx):
                     if slot == '_hash':
                         continue
                     evals += 1
+                    saved = getattr(o, slot)
                     try:
                         setattr(o, slot, None)
                         fails.append(dict(kind='setattr succeeded', selector=q, on=type(o).__name__, slot=slot))
+                        object.__setattr__(o, slot, saved)
                     except AttributeError:
                         pass
                     try:
                         delattr(o, slot)
                         fails.append(dict(kind='delattr succeeded', selector=q, on=type(o).__name__, slot=slot))
+                        object.__setattr__(o, slot, saved)
                     except AttributeError:
                         pass
                     v = getattr(o, slot, None)
